@@ -126,7 +126,8 @@ func c12Spec() *histSpec {
 		}
 		// guarded reads of L at every position around its bounds, D at present/absent keys
 		out = append(out, show(c12Str("读"), zn.Call{Name: "读", Args: []zn.Expr{c12Num(0)}}, zn.Call{Name: "读", Args: []zn.Expr{c12Num(1)}}, zn.Call{Name: "读", Args: []zn.Expr{c12Num(2)}},
-			zn.Call{Name: "读", Args: []zn.Expr{mem(L, "长度")}}, zn.Call{Name: "读", Args: []zn.Expr{zn.Bin{Op: "+", L: mem(L, "长度"), R: c12Num(1)}}}))
+			zn.Call{Name: "读", Args: []zn.Expr{mem(L, "长度")}}, zn.Call{Name: "读", Args: []zn.Expr{zn.Bin{Op: "+", L: mem(L, "长度"), R: c12Num(1)}}},
+			zn.Call{Name: "读", Args: []zn.Expr{zn.Num{Lit: "0.5"}}}, zn.Call{Name: "读", Args: []zn.Expr{zn.Num{Lit: "1.5"}}}, zn.Call{Name: "读", Args: []zn.Expr{zn.Num{Lit: "-0.5"}}}))
 		out = append(out, show(c12Str("查"), zn.Call{Name: "查", Args: []zn.Expr{c12Str("乙")}}, zn.Call{Name: "查", Args: []zn.Expr{c12Str("甲")}}, zn.Call{Name: "查", Args: []zn.Expr{c12Str("丙")}}, zn.Call{Name: "查", Args: []zn.Expr{c12Str("无")}},
 			// whole numbers beyond 2^63 as keys: two different ones are two keys
 			zn.Call{Name: "查", Args: []zn.Expr{zn.Num{Lit: "10000000000000000000"}}}, zn.Call{Name: "查", Args: []zn.Expr{zn.Num{Lit: "20000000000000000000"}}}))
@@ -160,6 +161,9 @@ func c12Spec() *histSpec {
 				add(fmt.Sprintf("（写：%d、v）", i), nil, show(c12Str("写"), zn.Call{Name: "写", Args: []zn.Expr{c12Num(i), v}}))
 			}
 		}
+		// a position between two whole numbers is the whole number below it: 0.5 is no position
+		add("（写：0.5、v）", nil, show(c12Str("写"), zn.Call{Name: "写", Args: []zn.Expr{zn.Num{Lit: "0.5"}, v}}))
+		add("（写：1.5、v + 3）", nil, show(c12Str("写"), zn.Call{Name: "写", Args: []zn.Expr{zn.Num{Lit: "1.5"}, zn.Bin{Op: "+", L: v, R: c12Num(3)}}}))
 		add("以L（前增：v）", nil, es(mcall(L, "前增", v)))
 		add("以L（后增：v）", nil, show(mem(mcall(L, "后增", v), "末项"), mem(L, "长度")))
 		add("以L（左移）", nil, show(mem(L, "首项"), mcall(L, "左移")))
@@ -211,7 +215,7 @@ func init() {
 	mc.Register(&mc.Check{
 		ID:    "C12",
 		Level: "model_checking",
-		Rule:  "E2: breadth-first search over operation histories on a list L and a dictionary D (plus one copy of each) from 3 initial states (non-empty, empty, literal with duplicate keys); list operations: guarded write at positions {0,1,2,len,len+1}, 前增 后增 左移 右移 交换 (in and out of range) 合并 (also with the receiver itself among the arguments), setters 首项 末项, copies; dictionary operations over keys 乙 甲 丙 (deliberately unsorted): #k write, 写入 移除 读取, numeric key, two whole-number keys beyond 2^63, copies; a two-name loop over L that appends its position variable to the copy M; values cycle through 0..2 so the space closes under the history bound. Every history of >= 3 operations is also run with the battery only at its end (an observation may itself refresh hidden state). After EVERY operation the full observation battery runs on the real interpreter (fresh run of the whole history) and the reference (slice / key list + map): structural value, display text, length, 首项 末项 逆序 逆序∘逆序 包含, guarded reads at 0,1,2,len,len+1 (out of range => error and unchanged), iteration order with indices, 所有索引 所有值, keyed reads of present and absent keys, generated JSON (of the dictionary itself and of it as an item of a list, of a list in a list and under a key).",
+		Rule:  "E2: breadth-first search over operation histories on a list L and a dictionary D (plus one copy of each) from 3 initial states (non-empty, empty, literal with duplicate keys); list operations: guarded write at positions {0,1,2,len,len+1} and at the fractional positions 0.5 and 1.5, 前增 后增 左移 右移 交换 (in and out of range) 合并 (also with the receiver itself among the arguments), setters 首项 末项, copies; dictionary operations over keys 乙 甲 丙 (deliberately unsorted): #k write, 写入 移除 读取, numeric key, two whole-number keys beyond 2^63, copies; a two-name loop over L that appends its position variable to the copy M; values cycle through 0..2 so the space closes under the history bound. Every history of >= 3 operations is also run with the battery only at its end (an observation may itself refresh hidden state). After EVERY operation the full observation battery runs on the real interpreter (fresh run of the whole history) and the reference (slice / key list + map): structural value, display text, length, 首项 末项 逆序 逆序∘逆序 包含, guarded reads at 0,1,2,len,len+1 and at 0.5, 1.5, -0.5 (out of range => error and unchanged), iteration order with indices, 所有索引 所有值, keyed reads of present and absent keys, generated JSON (of the dictionary itself and of it as an item of a list, of a list in a list and under a key).",
 		Assumptions: []string{
 			"fractional indices and the numeric convention of 寻找 / 新增 are not asserted (statement leaves them open)",
 			"JSON text of the reference uses Go's shortest float formatting and member order = stored key order",
